@@ -266,6 +266,10 @@ func (st *StateDB) UpdateDelegation(d common.Address, val *Validator, tokenChang
 	newVal := val.PartialCopy()
 	newVal.Token.Add(newVal.Token, tokenChanged)
 	newVal.Stake.Add(newVal.Stake, delta)
+	// PartialCopy shares the Delegations slice with val; UpdateDelegationFrom shifts and overwrites elements
+	// in place, which would also rewrite the list of val (the record the journal restores on revert).
+	newVal.Delegations = make(DelegationFroms, len(val.Delegations), len(val.Delegations)+1)
+	copy(newVal.Delegations, val.Delegations)
 
 	status := newVal.UpdateDelegationFrom(dfrom)
 	st.UpdateValidator(newVal, val)
